@@ -1,4 +1,4 @@
-"""Kernel K43 (property C17): how the code generator refers to a TYPE in the text it generates.
+"""Kernel K44 (property C17): how the code generator refers to a TYPE in the text it generates.
 
 Two parts, both regenerated from /repo on every run (fail closed):
 
@@ -38,7 +38,7 @@ Two parts, both regenerated from /repo on every run (fail closed):
                                     known finding generic-serializable-local-type-arg)
                     AOther          anything else  (a schema type pasted without going through the identifier)
 
-The Coq side (theories/K43Proofs.v, props/C17_typeref.v) proves over this table that no schema type is pasted
+The Coq side (theories/K44Proofs.v, props/C17_typeref.v) proves over this table that no schema type is pasted
 raw (except the stated ADialect sites) and that the defaultdict factory of unpack_collection is an FIdentCall."""
 from __future__ import annotations
 
@@ -50,7 +50,7 @@ HERE = os.path.dirname(os.path.abspath(__file__))
 sys.path.insert(0, os.path.dirname(HERE))
 from py2gallina import Unsupported  # noqa: E402
 
-NAME = "K43"
+NAME = "K44"
 REPO = os.environ.get("VERIF_REPO", "/repo")
 FILES = [
     "mashumaro/core/meta/code/builder.py",
@@ -264,7 +264,7 @@ def gen() -> str:
 
     mk = "[" + "; ".join(str(ord(c)) for c in marker) + "]"
     table = ";\n  ".join(site(r) for r in rows)
-    return f"""(* GENERATED by tools/kernels/k43_type_ident.py from {FILES[0]}, {HELPERS} and the generator modules: do not edit. *)
+    return f"""(* GENERATED by tools/kernels/k44_type_ident.py from {FILES[0]}, {HELPERS} and the generator modules: do not edit. *)
 From Coq Require Import List NArith Bool String.
 From VerifGen Require Import K42.
 Import ListNotations.
